@@ -4,6 +4,7 @@ mod gate;
 mod histcheck;
 mod malformed;
 mod reg;
+mod schemamut;
 mod sread;
 mod sweep;
 mod valjson;
